@@ -296,6 +296,7 @@ func propC10(c *Ctx) {
 			}
 		}
 	}
+	c.normaliserAssumptions()
 	r.sample("chk French <valid sentence, NFC, U+3000 separators> -> ok (same as NFKD with U+0020)")
 }
 
@@ -429,4 +430,107 @@ func streamSafeGuess(s string) bool {
 		}
 	}
 	return best <= 30
+}
+
+// normaliserAssumptions exercises the two recorded assumptions about x/text (Props/Norm.lean):
+// agrees  — on stream-safe input norm.NFKD.String is the Lean NFKD over the pinned tables;
+// overflow — otherwise its output contains 30 consecutive K-items.  Also every scalar value alone
+// (thorough: all 1 112 064; quick: every 37th plus the dense blocks).
+func (c *Ctx) normaliserAssumptions() {
+	r := c.rep
+	kitem := func(rn rune) bool {
+		p := norm.NFKD.PropertiesString(string(rn))
+		return p.CCC() != 0 || !p.BoundaryBefore()
+	}
+	check := func(class, s string) {
+		m, sp := c.drv.Ask("nfkd " + hx([]byte(s)))
+		ss, _ := field(sp, "ss")
+		got := norm.NFKD.String(s)
+		r.count(class)
+		if ss == "1" {
+			if m != "ok "+hx([]byte(got)) {
+				r.stale(Violation{Kind: "impl≠model", Class: class, Op: "nfkd " + hx([]byte(s)), Impl: hx([]byte(got)), Model: m,
+					Detail: "assumption `agrees`: x/text NFKD differs from UAX#15 NFKD (pinned Unicode 15 tables) on a stream-safe string"})
+			}
+			return
+		}
+		run, best := 0, 0
+		for _, rn := range got {
+			if kitem(rn) {
+				run++
+				if run > best {
+					best = run
+				}
+			} else {
+				run = 0
+			}
+		}
+		if best < 30 {
+			r.stale(Violation{Kind: "impl≠model", Class: class, Op: "nfkd " + hx([]byte(s)), Impl: hx([]byte(got)), Model: m,
+				Detail: fmt.Sprintf("assumption `overflow`: x/text output of a non-stream-safe string has no run of 30 K-items (longest %d)", best)})
+		}
+	}
+	step := rune(37)
+	if !c.quick {
+		step = 1
+	}
+	var batch []string
+	var batchRunes []rune
+	flush := func() {
+		if len(batch) == 0 {
+			return
+		}
+		ms, _ := c.drv.AskMany(batch)
+		for i, rn := range batchRunes {
+			r.count("scalar-value")
+			if ms[i] != "ok "+hx([]byte(norm.NFKD.String(string(rn)))) {
+				r.stale(Violation{Kind: "impl≠model", Class: "scalar-value", Op: batch[i], Impl: hx([]byte(norm.NFKD.String(string(rn)))), Model: ms[i],
+					Detail: fmt.Sprintf("NFKD of %U: x/text vs pinned tables", rn)})
+			}
+		}
+		batch, batchRunes = nil, nil
+	}
+	for rn := rune(0); rn <= 0x10FFFF; rn += step {
+		if rn >= 0xD800 && rn <= 0xDFFF {
+			continue
+		}
+		if c.quick && rn > 0x3400 && rn < 0xA000 && rn%370 != 0 {
+			continue
+		}
+		batch = append(batch, "nfkd "+hx([]byte(string(rn))))
+		batchRunes = append(batchRunes, rn)
+		if len(batch) == 4096 {
+			flush()
+		}
+	}
+	if c.quick {
+		for _, rg := range [][2]rune{{0xA0, 0x36F}, {0x1E00, 0x2FFF}, {0x3000, 0x33FF}, {0xF900, 0xFFEF}, {0x1D400, 0x1D7FF}, {0x2F800, 0x2FA1D}} {
+			for rn := rg[0]; rn <= rg[1]; rn++ {
+				batch = append(batch, "nfkd "+hx([]byte(string(rn))))
+				batchRunes = append(batchRunes, rn)
+			}
+		}
+	}
+	flush()
+	n := 150 * c.scale
+	if !c.quick {
+		n = 20000
+	}
+	marks := []rune{0x301, 0x316, 0x300, 0x327, 0x323, 0x3099, 0x309A, 0x1161, 0x1175, 0x11A8, 0x11C2, 0x9BE, 0xDCF, 0x5B0, 0x5B1, 0xE38, 0xE48, 0xF71, 0xF72, 0xF74, 0x1D165, 0x1D16E, 0xFF9E}
+	for k := 0; k < n; k++ {
+		var sb strings.Builder
+		for parts := 1 + c.rng.Intn(4); parts > 0; parts-- {
+			sb.WriteString(c.randUnicode(2))
+			for j := c.rng.Intn(40); j > 0; j-- {
+				sb.WriteRune(marks[c.rng.Intn(len(marks))])
+			}
+		}
+		check("random-mark-runs", sb.String())
+	}
+	for ln := 25; ln <= 36; ln++ {
+		for _, mk := range []rune{0x301, 0x1161, 0x3099, 0x11A8} {
+			check("boundary-run", "a"+strings.Repeat(string(mk), ln))
+			check("boundary-run", "가"+strings.Repeat(string(mk), ln)+"̖")
+		}
+	}
 }
